@@ -180,7 +180,7 @@ theorem vm_refines_sld_call (prog : List Term) (query : Term) (max : Nat)
     (h2 : SLD.solveQuery f2 prog query max = some (as2, e2))
     (hcalls : CallsOK true f1 prog query max) :
     Forall2 (AnsRel (Driver.C01.shiftVars 10 query)) as1 as2 ∧ endAgree e1 e2 :=
-  vm_refines_sld_S prog query max hfrag hmax f1 f2 as1 as2 e1 e2 h1 h2 hcalls
+  vm_refines_sld_S prog query max (hfrag.toS fun _ => ctlGoal1_sub) hmax f1 f2 as1 as2 e1 e2 h1 h2 hcalls
 
 /-- **vm_refines_sld_ctl** (stage 3): program and query in `CtlFrag` (clauses over user predicates
     whose bodies are disjunctions — at the top level — of conjunctions of `!`, Horn goals and the
@@ -195,7 +195,29 @@ theorem vm_refines_sld_ctl (prog : List Term) (query : Term) (max : Nat)
     (h2 : SLD.solveQuery f2 prog query max = some (as2, e2))
     (hcalls : CallsOK true f1 prog query max) :
     Forall2 (AnsRel (Driver.C01.shiftVars 10 query)) as1 as2 ∧ endAgree e1 e2 :=
-  vm_refines_sld_S prog query max hfrag hmax f1 f2 as1 as2 e1 e2 h1 h2 hcalls
+  vm_refines_sld_S prog query max (hfrag.toS fun _ => ctlGoal1_sub) hmax f1 f2 as1 as2 e1 e2 h1 h2 hcalls
+
+theorem callN_sub {t : Term} (h : (ctlGoal1 t || callNGoal t) = true) : ctlGoal t = true := by
+  rcases Bool.or_eq_true _ _ ▸ h with h | h
+  · exact ctlGoal1_sub h
+  · exact callNGoal_sub h
+
+/-- **vm_refines_sld_callN** (stage 4a, `call/N`): program and query in `CallNFrag` = `CtlFrag` +
+    `call(G, A1, …, Ak)`, 1 ≤ k ≤ 7, as a goal of clause bodies, of the query and of called goals.
+    The VM's `callN` dereferences the closure `G` and appends the arguments to it; the goal so built
+    is called as by `call/1`.  The reference: `addArgs`, then `callBody`.  Side condition `CallsOK`:
+    in addition to what it says about `call/1`, at every `call/N` the closure dereferences (inner
+    fuel) to a variable (instantiation error on both sides), to a number or string (type error on
+    both sides) or to a callable term such that the goal built is, instantiated (inner fuel), a body
+    of the fragment (`callNOK`). -/
+theorem vm_refines_sld_callN (prog : List Term) (query : Term) (max : Nat)
+    (hfrag : CallNFrag prog query) (hmax : 0 < max)
+    (f1 f2 : Nat) (as1 as2 : List Term) (e1 : VM.End) (e2 : SLD.End)
+    (h1 : VM.runQuery f1 prog (Driver.C01.shiftVars 10 query) max = some (as1, e1))
+    (h2 : SLD.solveQuery f2 prog query max = some (as2, e2))
+    (hcalls : CallsOK true f1 prog query max) :
+    Forall2 (AnsRel (Driver.C01.shiftVars 10 query)) as1 as2 ∧ endAgree e1 e2 :=
+  vm_refines_sld_S prog query max (hfrag.toS fun _ => callN_sub) hmax f1 f2 as1 as2 e1 e2 h1 h2 hcalls
 
 theorem vm_refines_sld_horn (prog : List Term) (query : Term) (max : Nat)
     (hfrag : HornFrag prog query) (hmax : 0 < max)
